@@ -117,6 +117,14 @@ func medianOf(ts []int64) int64 {
 
 func (s *sim) mtp() int64 { return medianOf(s.tsList) }
 
+// mtpAtHeight: median time past of the active chain when the block at height k was its tip.
+func (s *sim) mtpAtHeight(k int) int64 {
+	if k >= len(s.tsList) {
+		k = len(s.tsList) - 1
+	}
+	return medianOf(s.tsList[:k+1])
+}
+
 func (s *sim) lastTs() int64 { return s.tsList[len(s.tsList)-1] }
 
 // eligible: can the definition be put in a block on the current view (plus earlier block txs)?
@@ -140,6 +148,29 @@ func (s *sim) eligible(d *txDef, view map[[2]int]gUtxo) bool {
 		}
 		if uv.cb && s.height()+1-uv.height < s.maturity {
 			return false
+		}
+	}
+	// BIP68 (CSV is active from height 1 on these parameters): relative locks of version >= 2 transactions
+	if d.ver >= 2 {
+		h := s.height() + 1
+		for _, in := range d.ins {
+			if in.seq&(1<<31) != 0 {
+				continue
+			}
+			uv := view[[2]int{in.txid, in.idx}]
+			uh := uv.height
+			n := int64(in.seq & 0xffff)
+			if in.seq&(1<<22) != 0 {
+				prev := uh - 1
+				if prev < 0 {
+					prev = 0
+				}
+				if s.mtpAtHeight(prev)+n*512 > s.mtp() {
+					return false
+				}
+			} else if int64(uh)+n > int64(h) {
+				return false
+			}
 		}
 	}
 	// consensus finality uses the block timestamp (CSV inactive) which is above the MTP; be conservative
@@ -420,6 +451,11 @@ func (s *sim) newTx(o txOpts) *txDef {
 			}
 		}
 		d.outs = []outDef{{kind: 'n', pad: k}}
+	case "bip68": // relative locks: blocks 0..3, 512-second units 0..2, or disabled
+		d.ver = 2
+		for i := range d.ins {
+			d.ins[i].seq = uint32(s.r.Pick(0, 0, 1, 1, 2, 3, 1<<22, 1<<22|1, 1<<22|2, 1<<31|5, 0xfffffffd))
+		}
 	case "lockh":
 		d.lock = "h" + strconv.Itoa(s.height()+int(s.r.Pick(-1, 0, 1, 2)))
 		if d.lock[1] == '-' || d.lock == "h0" {
@@ -627,7 +663,7 @@ func (s *sim) randomOpts() txOpts {
 	}
 	if r.Chance(22, 100) {
 		sp := []string{"ghost", "badidx", "dupin", "badscript", "coinbase", "ver3", "ver2", "nonstdout", "nulldata",
-			"nulldata2", "big", "big49k", "noouts", "lockh", "lockt", "lockh", "lockt", "overspend", "dust", "tiny", "tiny2", "tiny2"}
+			"nulldata2", "big", "big49k", "noouts", "lockh", "lockt", "lockh", "lockt", "overspend", "dust", "tiny", "tiny2", "tiny2", "bip68", "bip68", "bip68", "bip68"}
 		o.special = sp[r.Intn(len(sp))]
 	}
 	return o
